@@ -1,2 +1,7 @@
 #!/bin/sh
-exit 0
+# Builds the conformance harness (fih, probe) offline from files on disk.
+set -e
+cd "$(dirname "$0")/harness"
+CARGO_NET_OFFLINE=true cargo build --offline
+tla-sany ../spec/Mutex.tla > /dev/null
+echo "setup ok"
